@@ -32,7 +32,15 @@ func buildIndexFile(r int, file uint32, label string) ([]byte, []*iRec) {
 		n := []int{14, 0}[vrt.Choose(label+"-listlen", vrt.Param("listlens", 2))]
 		body := make([]byte, 4, 4+n)
 		binary.LittleEndian.PutUint32(body, uint32(b))
-		body = append(body, vrt.Bytes(label+"-list", n)...)
+		if vrt.Param("symlists", 1) != 0 {
+			body = append(body, vrt.Bytes(label+"-list", n)...)
+		} else {
+			// concrete record-list bytes: a scan that loses its place reads concrete garbage
+			// (decided at once) instead of symbolic sizes and offsets
+			for j := 0; j < n; j++ {
+				body = append(body, byte(0x31+7*i+j))
+			}
+		}
 		rec := &iRec{bucket: b, start: len(data), body: body, file: file}
 		rec.deleted = vrt.Bool(label + "-deleted")
 		sz := uint32(len(body))
